@@ -621,6 +621,9 @@ func readSession(eng flows.Engine, sessionAssets flows.SessionAssets, data json.
 		if s.trigger, err = triggers.ReadTrigger(s.Assets(), e.Trigger, missing); err != nil {
 			return nil, fmt.Errorf("unable to read trigger: %w", err)
 		}
+
+		// whether this session was started as part of a batch isn't persisted itself but comes from the trigger
+		s.batchStart = s.trigger.Batch()
 	}
 
 	// read our contact
